@@ -10,6 +10,7 @@ import FP.Model.Ops
 import FP.Model.Empty
 import FP.Model.Bool
 import FP.Model.Eval
+import FP.Gen.ArgEval
 namespace FP.Props.C07
 open FP FP.Model FP.Gen.FuncTable
 
@@ -56,6 +57,33 @@ theorem aggregates_documented :
 
 example : onEmpty ⟨"power", "impl.Power", 1, 1, false⟩ = some "ok:[]" := by decide +kernel
 example : onEmpty ⟨"count", "impl.Count", 0, 0, false⟩ = some "ok:[I:0]" := by decide +kernel
+
+/-! ### which implementations look at an argument before they look at the input (regenerated from funcs/impl) -/
+
+/-- the implementations that evaluate an argument on the function's own input although no empty-input guard
+    precedes that evaluation — computed from the two regenerated tables (FP.Gen.ArgEval: which argument is
+    evaluated on what; FP.Gen.ImplGuards: whether an empty-input guard precedes every use of `args[i]`) -/
+def argumentBeforeInputCheck : List String :=
+  (((FP.Gen.ArgEval.argEvals.filter (fun a => a.2.2 == "input")).map (·.1)).eraseDups).filter
+    (fun f => !guardOf ("impl." ++ f))
+
+/-- AN EMPTY INPUT IS EMPTY WHATEVER THE ARGUMENTS ARE — except where recorded: on the current source exactly two
+    implementations evaluate an argument before they have looked at the input: `Iif` (a documented aggregate: its
+    criterion is its first argument) and `Extension` (the recorded finding C07-extension-empty-input, pinned by
+    TestExtension_InvalidInput_RaisesError).  A function that newly evaluates an argument before its empty-input guard makes this
+    fail before anything is evaluated. -/
+theorem argument_before_input_check_as_recorded :
+    ∀ f ∈ argumentBeforeInputCheck, f = "Iif" ∨ f = "Extension" := by decide +kernel
+
+/-- non-vacuity: the list is computed, not empty by construction — `Iif` is found by it -/
+example : "Iif" ∈ argumentBeforeInputCheck := by decide +kernel
+
+/-- the criteria functions evaluate their argument on the one-item collection of each input item, so on an empty
+    input they never evaluate it at all -/
+theorem per_item_arguments_never_evaluated_on_empty :
+    ((FP.Gen.ArgEval.argEvals.filter (fun a => a.2.2 != "input")).map (fun a => (a.1, a.2.2))) =
+      [("All", "system.Collection{element}"), ("Children", "system.Collection{base}"),
+       ("Select", "system.Collection{item}"), ("Where", "system.Collection{item}")] := by decide +kernel
 
 /-! ### whole expressions (the assembled evaluator, FP.Model.Eval): an empty focus stays empty
     along every path built from strict steps, whatever the argument expressions are -/
